@@ -150,3 +150,149 @@ Proof.
     + destruct bp; reflexivity.
     + destruct bp; cbn; repeat constructor; lia.
 Qed.
+
+(** * From the route to the payloads: every hop is told exactly what the route says *)
+
+Definition sum_fees (l : list route_hop) : Z := fold_right (fun h a => rh_fee_msat h + a) 0 l.
+Definition sum_deltas (l : list route_hop) : Z := fold_right (fun h a => rh_cltv_delta h + a) 0 l.
+
+Definition hop_ok (h : route_hop) : Prop := 0 <= rh_fee_msat h /\ 0 <= rh_cltv_delta h.
+
+Lemma last_fee_le_sum l d : l <> [] -> Forall hop_ok l -> rh_fee_msat (last l d) <= sum_fees l.
+Proof.
+  induction l as [|a r IH]; intros Hne Hok; [congruence|].
+  apply Forall_cons_iff in Hok as [[Ha _] Hok].
+  destruct r as [|b t].
+  - cbn. lia.
+  - change (last (a :: b :: t) d) with (last (b :: t) d).
+    specialize (IH ltac:(discriminate) Hok). cbn [sum_fees fold_right] in *. fold (sum_fees t) in *. lia.
+Qed.
+
+(** equal loop states up to arithmetic in the amount / expiry components *)
+Ltac finish_state :=
+  match goal with
+  | |- Some (?n, ?l, ?v, ?c, ?s) = Some (?n', ?l', ?v', ?c', ?s') =>
+      replace v with v' by lia; replace c with c' by lia; reflexivity
+  end.
+
+Section RouteSpec.
+  Variable tail : option blinded_tail.
+  Variable rf : recipient_fields.
+  Variable height : Z.
+  Variable keysend invreq : option bytes.
+
+  (** what the payloads of the hops AFTER the last plain route hop carry: the recipient's, or the
+      blinded tail's (whose last one tells the recipient [height + excess]) *)
+  Definition final_payloads (last_hop : route_hop) : list onion_payload :=
+    match tail with
+    | Some bt =>
+        blinded_payloads (bt_hops bt) (Some (bt_blinding_point bt))
+          (fun e bp => PBlindedReceive (bt_final_value_msat bt) (rf_total_mpp_amount_msat rf)
+                                       (height + bt_excess_final_cltv_expiry_delta bt) e bp keysend
+                                       (rf_custom_tlvs rf) invreq)
+    | None =>
+        [PReceive (option_map (fun s => (s, rf_total_mpp_amount_msat rf)) (rf_payment_secret rf))
+                  (rf_payment_metadata rf) keysend (rf_custom_tlvs rf) (rh_fee_msat last_hop)
+                  (height + rh_cltv_delta last_hop)]
+    end.
+
+  (** value carried beyond the plain hops: the blinded tail's final value *)
+  Definition tail_value : Z :=
+    match tail with Some bt => match bt_hops bt with [] => 0 | _ :: _ => bt_final_value_msat bt end | None => 0 end.
+
+  (** the amount / expiry of the HTLC that enters the first hop of [l] *)
+  Definition V (l : list route_hop) : Z := sum_fees l + tail_value.
+  Definition C (l : list route_hop) : Z := height + sum_deltas l.
+
+  (** the specification: hop [a] followed by [b :: t] is told to forward over [b]'s channel the amount
+      and with the expiry of the HTLC that enters [b] *)
+  Fixpoint spec (l : list route_hop) : list onion_payload :=
+    match l with
+    | [] => []
+    | [last] => final_payloads last
+    | a :: ((b :: _) as r) => PForward (rh_scid b) (V r) (C r) :: spec r
+    end.
+
+  Lemma sums_nonneg l : Forall hop_ok l -> 0 <= sum_fees l /\ 0 <= sum_deltas l.
+  Proof.
+    induction 1 as [|h l [Hf Hd] _ [IH1 IH2]]; cbn [sum_fees sum_deltas fold_right]; [lia|].
+    fold (sum_fees l) (sum_deltas l). lia.
+  Qed.
+
+  Lemma fold_spec : forall l,
+    l <> [] -> Forall hop_ok l -> 0 <= height -> 0 <= tail_value ->
+    0 < rh_fee_msat (last l (mk_route_hop 0 0 0)) + tail_value ->
+    V l < MAX_VALUE_MSAT_LIMIT -> C l < CLTV_LIMIT ->
+    fold_left (payload_step tail rf height keysend invreq) (rev l) (Some (O, [], 0, height, None)) =
+    Some (length l, spec l, V l, C l, Some (rh_scid (hd (mk_route_hop 0 0 0) l))).
+  Proof.
+    induction l as [|a r IH]; intros Hne Hok Hh Htv Hpos HV HC; [congruence|].
+    apply Forall_cons_iff in Hok as [[Hfa Hda] Hokr].
+    destruct (sums_nonneg r Hokr) as [Hsf Hsd].
+    cbn [rev]. rewrite fold_left_app. cbn [fold_left].
+    unfold V, C in HV, HC. cbn [sum_fees sum_deltas fold_right] in HV, HC. fold (sum_fees r) (sum_deltas r) in HV, HC.
+    unfold CLTV_LIMIT, MAX_VALUE_MSAT_LIMIT in *.
+    destruct r as [|b t].
+    - (* the last plain hop *)
+      cbn [rev app fold_left length spec hd]. unfold payload_step. cbn [Z.eqb].
+      unfold MAX_VALUE_MSAT_LIMIT, CLTV_LIMIT.
+      unfold V, C, tail_value, final_payloads, sum_fees, sum_deltas. cbn [fold_right app].
+      unfold sat_add_u32, tail_value in *. cbn [last] in Hpos. cbn [fold_right] in HV, HC.
+      destruct tail as [bt|].
+      + destruct (bt_hops bt) eqn:Eh.
+        * rewrite !Z.min_l by lia.
+          repeat match goal with |- context [?x <=? ?y] => rewrite (proj2 (Z.leb_gt x y)) by lia end.
+          finish_state.
+        * rewrite !Z.min_l by lia.
+          repeat match goal with |- context [?x <=? ?y] => rewrite (proj2 (Z.leb_gt x y)) by lia end.
+          finish_state.
+      + rewrite !Z.min_l by lia.
+        repeat match goal with |- context [?x <=? ?y] => rewrite (proj2 (Z.leb_gt x y)) by lia end.
+        rewrite ?Z.add_0_r, ?Z.add_0_l, (Z.add_comm (rh_cltv_delta a) height). reflexivity.
+    - (* a forwarding hop *)
+      set (r := b :: t) in *.
+      assert (Hlast : last (a :: r) (mk_route_hop 0 0 0) = last r (mk_route_hop 0 0 0)) by reflexivity.
+      rewrite Hlast in Hpos.
+      assert (HVr : V r < 21000000 * 100000000 * 1000) by (unfold V; lia).
+      assert (HCr : C r < 500000000) by (unfold C; lia).
+      rewrite (IH ltac:(discriminate) Hokr Hh Htv Hpos HVr HCr).
+      assert (HVpos : 0 < V r).
+      { unfold V. pose proof (last_fee_le_sum r (mk_route_hop 0 0 0) ltac:(discriminate) Hokr). lia. }
+      unfold payload_step. subst r. cbn [length hd spec].
+      destruct (V (b :: t) =? 0) eqn:E0; [apply Z.eqb_eq in E0; lia|].
+      unfold MAX_VALUE_MSAT_LIMIT, CLTV_LIMIT, sat_add_u32.
+      assert (HV2 : V (b :: t) + rh_fee_msat a < 21000000 * 100000000 * 1000) by (unfold V in *; lia).
+      assert (HC2 : C (b :: t) + rh_cltv_delta a < 500000000) by (unfold C in *; lia).
+      rewrite Z.min_l by lia.
+      repeat match goal with |- context [?x <=? ?y] => rewrite (proj2 (Z.leb_gt x y)) by lia end.
+      unfold V, C. cbn [sum_fees sum_deltas fold_right]. fold (sum_fees (b :: t)) (sum_deltas (b :: t)).
+      finish_state.
+  Qed.
+End RouteSpec.
+
+(** C14, instructions.  For every route of plain hops (fees and deltas non-negative, totals below
+    rust-lightning's limits, a positive amount arriving at the recipient) with or without a blinded
+    tail: [build_onion_payloads] succeeds; hop [i] is told to forward over hop [i+1]'s channel exactly
+    the amount and expiry of the HTLC entering hop [i+1]; the recipient is told the final value and
+    [height + final delta], or - behind a blinded tail - the tail's final value and
+    [height + excess_final_cltv_expiry_delta]; the HTLC handed to the first hop carries the total. *)
+Theorem build_payloads_spec hops tail rf height keysend invreq :
+  hops <> [] -> Forall hop_ok hops -> 0 <= height -> 0 <= tail_value tail ->
+  0 < rh_fee_msat (last hops (mk_route_hop 0 0 0)) + tail_value tail ->
+  V tail hops < MAX_VALUE_MSAT_LIMIT -> C height hops < CLTV_LIMIT ->
+  build_payloads hops tail rf height keysend invreq =
+  Some (spec tail rf height keysend invreq hops, V tail hops, C height hops).
+Proof.
+  intros. unfold build_payloads. now rewrite fold_spec.
+Qed.
+
+(** in particular, what the recipient behind a blinded tail is told *)
+Corollary blinded_recipient_cltv bt e rf height keysend invreq :
+  blinded_payloads [e] (Some (bt_blinding_point bt))
+    (fun e bp => PBlindedReceive (bt_final_value_msat bt) (rf_total_mpp_amount_msat rf)
+                                 (height + bt_excess_final_cltv_expiry_delta bt) e bp keysend
+                                 (rf_custom_tlvs rf) invreq) =
+  [PBlindedReceive (bt_final_value_msat bt) (rf_total_mpp_amount_msat rf)
+                   (height + bt_excess_final_cltv_expiry_delta bt) e (Some (bt_blinding_point bt)) keysend
+                   (rf_custom_tlvs rf) invreq].
+Proof. reflexivity. Qed.
